@@ -51,10 +51,10 @@ theorem idatChunks_spec (crc : Bytes → Nat) (s : Bytes) (hb : ∀ b ∈ s, b <
       · exact hnil h
       · rename_i hcond
         split at h
-        · simp at h
+        · exact hnil h
         · rename_i hlen0
           split at h
-          · simp at h
+          · exact hnil h
           · rename_i hcrc
             have hty : (s.drop (pos + 4)).take 4 = idatTag := by
               apply Classical.byContradiction; intro hne; exact hcond (Or.inl hne)
